@@ -144,20 +144,25 @@ CLAIMED["C12"] = dict(cat="proof", ref="DESIGN.md §5 C12, §12",
    note="dictionary-equality clause observed, not proved; known finding F4 (canonical form and container header of a piecewise-parsed schema keep bare names); "
         "piecewise forms exist only for top-level records (only they carry __named_schemas); F26 fixed",
    tech="Lean 4 theorems on the (schema, dictionary) interface + differential run over schema forms and operations")
-CLAIMED["C15"] = dict(cat="proof", ref="DESIGN.md §5 C15, §11, §12",
+CLAIMED["C15"] = dict(cat="proof", ref="DESIGN.md §5 C15, §11, §12, §13",
    text="PARTIAL proof. Lean theorems: c15_encode_eq_spec (the value json_writer emits = the specification's JSON encoding Spec.jsonEncode — null as null, union "
         "values wrapped under the branch name with full names for named types, bytes/fixed as strings of code points, enums as symbols, objects and arrays — for the "
         "branches write_union selects, at any depth, on the core fragment: floating fields hold floats, no empty map key, no logical types), c15_core_is_spec, "
-        "c15_bytes_strings (code-point strings decode back to the bytes), and c15_read_back (the read-back clause at any depth: json_reader — model Json.decode — applied "
-        "to that encoding with the same schema returns the record as written, Spec.written: defaults filled in, union value of the written branch, sequences as lists, "
-        "bytearray as bytes; side conditions = definedness of that form: distinct dict keys / field names / union branch names, named-schema table holding named types). "
-        "The driver evaluates Spec.written on every harness case and the implementation's read-back is compared with it (tag read-back:theorem-domain). The "
-        "agreement-with-binary and absent-field-default clauses are checked on the implementation: JSON text parsed and compared by value with Spec.jsonEncode under "
-        "the documented branch rule, read back, compared with the binary round trip, fields deleted from the text, write_union_type on/off.",
-   note="the model describes the net effect of the writer's / reader's traversal on AvroJSONEncoder / AvroJSONDecoder; the grammar machine that sequences the calls "
-        "(fastavro/io/parser.py: symbol stack, forced-null production for repeated record names, lazily executed actions) is NOT modelled and is where the open findings "
-        "F5a-d, F27, F28 live; F14 (numbers not rounded to the type's precision) open; model==implementation observed by correspondence on schemas outside those findings",
-   tech="Lean 4 proof (writer traversal = specification JSON encoder; reader traversal inverts it) + specification encoder run against the implementation's text + differential read-back")
+        "c15_bytes_strings (code-point strings decode back to the bytes), c15_read_back (the read-back clause at any depth: json_reader — model Json.decode — applied "
+        "to that encoding with the same schema returns the record as written, Spec.written), and, for the grammar machine of fastavro/io/parser.py with the "
+        "AvroJSONEncoder state modelled step by step (Model/JsonMachine.lean: grammar built from the schema incl. the recursion guard, symbol stack, lazily executed "
+        "actions, root symbol, frame stack, stale keys, flush): c15_machine_value / c15_machine_json_writer / c15_machine_emits_spec — the machine writes exactly the "
+        "function-level (= specification) encoding for every schema without empty records and forced-null productions, any nesting depth, any non-empty record list; "
+        "kernel-checked counterexamples (c15_machine_counterexample_*) show the machine derails outside those hypotheses (findings F33, F5b, F5a). "
+        "The driver evaluates Spec.written and the machine model on every harness case; implementation = machine model is compared on record lists (also on the "
+        "derailing shapes and on texts with keys removed), and a failure is attributed to a recorded finding only when the machine model reproduces it. The "
+        "agreement-with-binary and absent-field-default clauses are checked on the implementation (JSON text compared by value with Spec.jsonEncode under the documented "
+        "branch rule, read back, compared with the binary round trip, fields deleted from the text take the specification's reading of their default, defaults family "
+        "over every field kind, write_union_type on/off, empty record list).",
+   note="the READ side of the machine (AvroJSONDecoder driven by read_data) is modelled (JM.decodeAll) and tied by correspondence only; open findings F5a-d, F27, F28, F33 (grammar "
+        "machine), F14 (numbers not rounded to the type's precision); F30-F32 (defaults consumed / dropped) found by the machine model and fixed in /repo; "
+        "model==implementation observed by correspondence",
+   tech="Lean 4 proof (function-level encoder = specification encoder; push-down machine = function-level encoder; reader traversal inverts it) + machine model and specification encoder run against the implementation")
 CLAIMED["C17"] = dict(cat="proof", ref="DESIGN.md §5 C17, §12",
    text="Lean: c17_history_independent (generic theorem: for every semantics of the calls that respects the footprints of the effect table, the result of any call after "
         "any history equals its result in the initial store), with the table obligations c17_table_safe (whatever an entry point may read before writing it is written "
